@@ -197,6 +197,9 @@ func (a *Activation) callContract(ins *ssa.Call, g *ssa.Function, spec *FuncSpec
 		ghostRes["res_"+name] = v
 	}
 	for i, en := range spec.Ensures {
+		if en.Internal && funcPkg(g) != funcPkg(a.fn) {
+			continue // internal clause: not exported to other packages
+		}
 		c.Comment("ensures of " + fullKey(g) + ": " + en.Text)
 		c.AssumeTagged(fmt.Sprintf("%s:%s", site, clauseLabel(en.Label, i)), implies(*rc, post.evalBool(en.E)))
 	}
